@@ -392,8 +392,9 @@ fn record(evp: &str, sump: &str) {
         for step in 0..len {
             let a = rng.pick(&addrs).clone();
             let i = ids[rng.below(nid as u64) as usize].clone();
+            let maxlife = if rng.chance(1, 2) { 3 } else { 9 };
             let act = match rng.below(100) {
-                0..=19 => json!({"kind": "register", "k": keys[rng.below(nkey as u64) as usize], "id": i, "life": 1 + rng.below(if rng.chance(1, 2) { 3 } else { 9 })}),
+                0..=19 => json!({"kind": "register", "k": keys[rng.below(nkey as u64) as usize], "id": i, "life": 1 + rng.below(maxlife)}),
                 20..=27 => json!({"kind": "adv", "d": 1 + rng.below(3)}),
                 28..=31 => json!({"kind": "purge"}),
                 32..=45 => json!({"kind": "hs", "a": a, "id": i}),
